@@ -44,6 +44,41 @@ def written_keys(rj):
     return out
 
 
+def written_keys_dsl(rule):
+    """the same map, from the rule as *written* (the template's abstract syntax, i.e. the YAML text), so that a loader
+    that garbles a key is seen asking for something the rule does not write"""
+    out = {}
+
+    def val(v, chain):
+        if v[0] == 'map':
+            for (mod, f), x in v[1]:
+                out.setdefault(chain, set()).add(f.encode())
+                if x[0] == 'map':
+                    val(x, chain + (f.encode(),))
+                elif x[0] == 'list':
+                    for m in x[1]:
+                        if m[0] == 'map':
+                            val(m, chain + (f.encode(),))
+        elif v[0] == 'seq':
+            for m in v[1]:
+                val(m, chain)
+
+    def cond(c):
+        if not isinstance(c, tuple):
+            return
+        if c[0] == 'cmp':
+            for o in c[2:]:
+                if o[0] in ('int', 'flt', 'str'):
+                    out.setdefault((), set()).add(o[1].encode())
+        elif c[0] in ('and', 'or', 'not'):
+            for x in c[1:]:
+                cond(x)
+    for ident in rule['idents'].values():
+        val(ident, ())
+    cond(rule['cond'])
+    return out
+
+
 def chain_of(path):
     """SymDoc path 'doc/n.o/m.a[0].o' -> (b'n', b'm')"""
     parts = path.split('/')[1:]
@@ -76,9 +111,14 @@ def main():
         quota = {'single': 3, 'regex': 2, 'number': 2, 'scalar': 2, 'list': 4, 'list-all': 3, 'list-of': 4, 'list-mixed': 3,
                  'quant-short': 4, 'quant-ident': 5, 'cast-cond': 4, 'regex-rewrite': 2, 'modifier': 5, 'condition': 5}
         tpl = templates.thin(tpl, quota, rnd)
+    # the three-conjunct nested templates exist for C01 (merged blocks over arrays); here they are expensive and add no
+    # request the two-conjunct ones do not make: thorough tier only
+    heavy = lambda n: quick and ('&n.' in n or 'rows n.fg' in n)
+    tpl = [t for t in tpl if not heavy(t[1])]
     ck.extra['templates'] = len(tpl)
-    dotted = [('@object:' + name, templates.render(rule)) for fam, name, rule in templates.select(ck.tier, ck.seed) if fam in ('dotted', 'nested')]
-    ck.run_units([('@cache-keys', None)] + dotted + [(name, templates.render(rule)) for _, name, rule in tpl], run_unit)
+    dotted = [('@object:' + name, templates.render(rule)) for fam, name, rule in templates.select(ck.tier, ck.seed) if fam in ('dotted', 'nested') and not heavy(name)]
+    ck.run_units([('@cache-keys', None)] + dotted + [(name, templates.render(rule), written_keys_dsl(rule) if 'raw' not in repr(rule['cond']) else None)
+                                                     for _, name, rule in tpl], run_unit)
     ck.finish('every Document::find / Object::get that reaches the user document on any feasible path is for a key written '
               'in the rule at that nesting level; decided by z3 per recorded request (unsat = request infeasible)')
 
@@ -183,7 +223,8 @@ def drop_fields(docj, stray):
 
 
 def run_unit(ck, unit):
-    name, yaml = unit
+    name, yaml = unit[0], unit[1]
+    written = unit[2] if len(unit) > 2 else None
     if name == '@cache-keys':
         cache_keys(ck)
         return
@@ -197,6 +238,9 @@ def run_unit(ck, unit):
         return
     variants.setdefault(tree_text(base), (None, base))
     allowed = written_keys(base)
+    if written is not None:
+        # keys as written in the rule text take precedence over what the loader made of them
+        allowed = written
     tr = TreeRunner(ck, Bounds(str_cap=3, arr_cap=2 if quick else 3, depth=3 if 'n.m.f' in name else 2))
     tr.uni.numstr_cap = 2
     for txt, (opts, rj) in variants.items():
@@ -235,7 +279,7 @@ def run_unit(ck, unit):
                 ck.extra.setdefault('matches_without_any_request', []).append(label)
         # independence: the verdict term mentions only variables of requested cells
         if v['res'] is not None:
-            names = {str(x) for x in free_vars(v['res'])}
+            names = {x.decl().name() for x in free_vars(v['res'])}
             req = set()
             for _, ev in events:
                 if ev[0] in ('find', 'get'):
@@ -251,7 +295,7 @@ def run_unit(ck, unit):
                 # the verdict term mentions something the rule does not address: can it change the verdict?  Two documents
                 # that agree on everything else (the stray variables are renamed in a second copy of the term and of the
                 # range axioms); z3 decides whether their verdicts can differ, the pair is replayed natively
-                byname = {str(x): x for x in free_vars(v['res'])}
+                byname = {x.decl().name(): x for x in free_vars(v['res'])}
                 pairs = [(byname[n], z3.Const(n + "'", byname[n].sort())) for n in stray]
                 res2 = z3.substitute(v['res'], *pairs)
                 ax2 = []
